@@ -19,6 +19,7 @@ class Path(object):
         self.in_handler = []  # exception types of enclosing handlers the path went through
         self.calls = []      # expression statements (calls) executed on the path, substituted
         self.stores = []     # (target expression, value expression) of assignments to attributes / subscripts, substituted
+        self.decided = {}    # dump of a test over plain names -> polarity already taken on this path (the same test again goes the same way)
 
     def copy(self):
         q = Path()
@@ -27,7 +28,14 @@ class Path(object):
         q.in_handler = list(self.in_handler)
         q.calls = list(self.calls)
         q.stores = list(self.stores)
+        q.decided = dict(self.decided)
         return q
+
+    def forget(self, names):
+        """names were (re)bound: tests that mention them are open again"""
+        if self.decided and names:
+            for k in [k for k, (pol, ns) in self.decided.items() if ns & names]:
+                del self.decided[k]
 
 
 class _Subst(ast.NodeTransformer):
@@ -143,6 +151,7 @@ def _stmt(st, live, out):
     if isinstance(st, ast.Assign):
         for p in live:
             v = subst(st.value, p.env)
+            p.forget({x.id for t in st.targets for x in ast.walk(t) if isinstance(x, ast.Name) and isinstance(x.ctx, ast.Store)})
             for t in st.targets:
                 if isinstance(t, ast.Name):
                     p.env[t.id] = v
@@ -167,6 +176,7 @@ def _stmt(st, live, out):
     if isinstance(st, ast.AugAssign):
         for p in live:
             if isinstance(st.target, ast.Name):
+                p.forget({st.target.id})
                 old = p.env.get(st.target.id, ast.Name(id=st.target.id, ctx=ast.Load()))
                 p.env[st.target.id] = ast.BinOp(left=_fcopy(old), op=st.op, right=subst(st.value, p.env))
         return live
@@ -185,9 +195,22 @@ def _stmt(st, live, out):
                 # the decision is fixed by what this path already assigned (e.g. a flag set to False): only one arm is feasible
                 (t_live if k else f_live).append(p)
                 continue
+            pure = not any(isinstance(x, (ast.Call, ast.Attribute, ast.Subscript, ast.Await, ast.Yield, ast.Lambda)) for x in ast.walk(t))
+            if pure:
+                key = ast.dump(t)
+                if key in p.decided:
+                    # the same test over the same unchanged names was already taken on this path
+                    pol0 = p.decided[key][0]
+                    p.conds.append((t, pol0))
+                    (t_live if pol0 else f_live).append(p)
+                    continue
             a, b = p, p.copy()
             a.conds.append((t, True))
             b.conds.append((t, False))
+            if pure:
+                ns = {x.id for x in ast.walk(t) if isinstance(x, ast.Name)}
+                a.decided[key] = (True, ns)
+                b.decided[key] = (False, ns)
             t_live.append(a)
             f_live.append(b)
         return _block(st.body, t_live, out) + _block(st.orelse, f_live, out)
@@ -219,10 +242,12 @@ def _stmt(st, live, out):
                         p.calls.append(subst(x.value, p.env))
                     if isinstance(x, ast.Name) and isinstance(x.ctx, ast.Store):
                         p.env.pop(x.id, None)
+                        p.forget({x.id})
             if isinstance(st, ast.For):
                 for x in ast.walk(st.target):
                     if isinstance(x, ast.Name):
                         p.env.pop(x.id, None)
+                        p.forget({x.id})
         return live
     if isinstance(st, ast.With):
         return _block(st.body, live, out)
